@@ -1000,6 +1000,12 @@ func (e *Env) call(x *ast.CallExpr) *Val {
 	case "sllen":
 		// sllen(g): length of a slice-sorted ghost value
 		return &Val{T: "(sl_len " + argv(0).T + ")", Ty: intT}
+	case "slstr":
+		// slstr(g, i): i-th element of a []string-sorted ghost value, read from the current heap
+		v, i := argv(0), argv(1)
+		name, cs := elemComp(fx.u, types.Typ[types.String])
+		h := fx.heapGet(e.st, name, cs)
+		return &Val{T: "(select (select " + h + " (sl_arr " + v.T + ")) (+ (sl_off " + v.T + ") " + i.T + "))", Ty: strT}
 	case "slbyte":
 		// slbyte(g, i): i-th byte of a []byte-sorted ghost value, read from the current heap
 		v, i := argv(0), argv(1)
@@ -1268,6 +1274,25 @@ func (e *Env) call(x *ast.CallExpr) *Val {
 			}
 		}
 	}
+	if name == "fmt.Sprintf" && len(x.Args) >= 1 {
+		// the symbol the code gets for a Sprintf whose operands are plain basic values (plainVariadic)
+		args := []*Val{argv(0)}
+		empty := types.NewInterfaceType(nil, nil)
+		for i := 1; i < len(x.Args); i++ {
+			v := argv(i)
+			if v == nil || v.Ty == nil {
+				return e.errorf("fmt.Sprintf: untyped operand")
+			}
+			if _, isIf := v.Ty.Underlying().(*types.Interface); !isIf {
+				v = fx.makeIface(e.st, v, empty)
+			}
+			args = append(args, v)
+		}
+		fx.pureInline = true
+		v := fx.pureCall(e.st, "pf$fmt_Sprintf$v", args, types.Typ[types.String])
+		fx.pureInline = false
+		return v
+	}
 	// pure library functions: the same uninterpreted symbol the code gets
 	if lc := fx.eng.specs.Contracts["lib:"+name]; pureFuncs[name] || (lc != nil && lc.Pure) {
 		if i := strings.Index(name, "."); i > 0 {
@@ -1411,7 +1436,7 @@ func (fx *FuncCtx) unchangedTerm(now, pre *State, except ...string) string {
 	}
 	sort.Strings(names)
 	for _, c := range names {
-		if strings.HasPrefix(c, "G$rd_pos") || strings.HasPrefix(c, "G$it_") || strings.HasPrefix(c, "G$put_") || strings.HasPrefix(c, "G$get_") || strings.HasPrefix(c, "G$part_") || strings.HasPrefix(c, "G$lp_") || strings.HasPrefix(c, "G$br_src") || strings.HasPrefix(c, "G$hdr_") || strings.HasPrefix(c, "RV$") {
+		if strings.HasPrefix(c, "G$rd_pos") || strings.HasPrefix(c, "G$it_") || strings.HasPrefix(c, "G$put_") || strings.HasPrefix(c, "G$get_") || strings.HasPrefix(c, "G$part_") || strings.HasPrefix(c, "G$lp_") || strings.HasPrefix(c, "G$dm_") || strings.HasPrefix(c, "G$br_src") || strings.HasPrefix(c, "G$hdr_") || strings.HasPrefix(c, "RV$") {
 			continue // stream cursors, iterators, the ghost call log and iteration bookkeeping are not stored state
 		}
 		t := now.Heap[c]
